@@ -752,6 +752,19 @@ def np_norm(interp, args, kwargs):
         t = SQRT(sq)
         ctx.assume(z3.And(t >= 0, t * t == sq))
         return Num(t, False)
+    if isinstance(x, Mat) and "axis" in kwargs and conc(kwargs["axis"].z) == 1 and conc(x.cols) is not None and conc(x.cols) <= 8:
+        src = x.buf.fn
+        cols = conc(x.cols)
+
+        def fn(i):
+            sq = z3.RealVal(0)
+            for j in range(cols):
+                v = as_real(to_num(src(i, j)))
+                sq = sq + v * v
+            t = SQRT(sq)
+            ctx.assume(z3.And(t >= 0, t * t == sq))
+            return Num(t, False)
+        return Vec(x.rows, fn, kind="ndarray", elem="real")
     raise Unsupported("np.linalg.norm form")
 
 
@@ -812,3 +825,32 @@ def np_argmin(interp, args, kwargs):
     out_facts = lambda jj: z3.Implies(z3.And(zint(jj) >= 0, zint(jj) < n), z3.And(vk <= as_real(to_num(src(zint(jj)))), z3.Implies(zint(jj) < k, as_real(to_num(src(zint(jj)))) > vk)))
     ctx.__dict__.setdefault("argmins", []).append({"k": k, "instance": out_facts, "n": n})
     return out
+
+
+@lib("numpy.eye")
+def np_eye(interp, args, kwargs):
+    n = args[0]
+    nn = conc(n.z) if conc(n.z) is not None else n.z
+    return Mat(nn, nn, lambda i, j: Num(z3.If(zint(i) == zint(j), z3.RealVal(1), z3.RealVal(0)), False), elem="real")
+
+
+@lib("numpy.ones")
+def np_ones(interp, args, kwargs):
+    n = args[0]
+    if isinstance(n, Num):
+        nn = conc(n.z) if conc(n.z) is not None else n.z
+        return Vec(nn, lambda k: Num(z3.RealVal(1), False), kind="ndarray", elem="real")
+    raise Unsupported("np.ones shape")
+
+
+@lib("numpy.ravel")
+def np_ravel(interp, args, kwargs):
+    x = args[0]
+    if isinstance(x, Vec):
+        return ops.vec_copy(interp.ctx, x, kind="ndarray")
+    raise Unsupported("np.ravel of a non-vector")
+
+
+@method("vec", "ravel")
+def _vec_ravel(interp, self, args, kwargs):
+    return ops.vec_copy(interp.ctx, self, kind="ndarray")
